@@ -36,6 +36,9 @@ MEMPOOL_HARNESSES = [
     {'name': 'h_mempool_vbktie', 'src': 'real/h_mempool.cpp', 'entry': 'h_mempool', 'repo_srcs': srcsets_real.REAL, 'defines': ['MODE_VBKTIE'], 'covers': [1, 2], 'jobs': 2, 'override': True,
      'obligations': ['REAL MemPool::generatePopData with two equal-work VBK forks on chain and a pooled block extending one of them: all three trees including the VBK best chain (first-seen fork) are exactly as before the call; the block is offered; once a real ALT block carries it the extended fork becomes best'],
      'rungs': {'quick': [{'bound': 'VBK forks 3 and 4 on block 2; pooled block 5 on either', 'timeout': 200}], 'thorough': [{'bound': 'as quick', 'timeout': 400}]}},
+    {'name': 'h_mempool_vtbfork', 'src': 'real/h_mempool.cpp', 'entry': 'h_mempool', 'repo_srcs': srcsets_real.REAL, 'defines': ['MODE_VTBFORK'], 'covers': [1, 2], 'jobs': 2, 'override': True,
+     'obligations': ['REAL MemPool::generatePopData with a pooled VTB whose containing block is on a shorter, inactive VBK fork: the three trees and the VBK payload index are exactly as before the call (the VTB leaves the unapplied fork block again), it is offered, and the next block carrying it activates with exactly one copy'],
+     'rungs': {'quick': [{'bound': 'VBK main chain of 3, containing fork block on block 2 or 3', 'timeout': 200}], 'thorough': [{'bound': 'as quick', 'timeout': 400}]}},
     {'name': 'h_mempool_timely', 'src': 'real/h_mempool.cpp', 'entry': 'h_mempool', 'repo_srcs': srcsets_real.REAL, 'defines': ['MODE_TIMELY'], 'covers': [1, 2], 'jobs': 8, 'override': True,
      'obligations': ['REAL MemPool timeliness == tree timeliness: an honest ATV endorsing block E is accepted by submit and offered by generatePopData on tip T exactly when a next block carrying it directly activates (T.height + 1 <= E.height + settlement interval), including the last timely block'],
      'rungs': {'quick': [{'bound': 'ALT chain of 4, tip 2..4, endorsed block 1..tip, settlement interval 3', 'timeout': 200}], 'thorough': [{'bound': 'as quick', 'timeout': 400}]}},
@@ -107,7 +110,7 @@ SP_HARNESSES = [
                      'REAL trees: switching to the candidate and back reproduces the digest (VBK best chain, reference counts, VTB lists, endorsements)'],
      'rungs': {'quick': [{'bound': 'VBK fork 2-3 / 2-4 delivered by the common ALT prefix in either order; candidate chain with a VTB contained in either branch, carried by either of its blocks, with or without a trailing invalid ATV; setState or comparePopScore', 'timeout': 250}],
                'thorough': [{'bound': 'as quick', 'timeout': 600}]}},
-    {'name': 'h_realsp_unequal', 'src': 'real/h_realsp.cpp', 'entry': 'h_realsp', 'repo_srcs': srcsets_real.REAL, 'defines': ['UNEQUAL', 'VBK_KI=2'], 'covers': [1, 2, 3], 'jobs': 2,
+    {'name': 'h_realsp_unequal', 'src': 'real/h_realsp.cpp', 'entry': 'h_realsp', 'repo_srcs': srcsets_real.REAL, 'defines': ['UNEQUAL', 'VBK_KI=2'], 'covers': [1, 2, 3, 4], 'jobs': 2,
      'obligations': ['REAL trees: a VTB on the lighter VBK branch flips VBK fork resolution while its ALT chain is applied; after switching back the VBK best chain is again the heavier branch and the digest of all three trees equals the one recorded before (POP state depends only on the active chain, no tie involved)'],
      'rungs': {'quick': [{'bound': 'VBK branches 2-3-5 (heavier) and 2-4, optionally extended to 2-3-5-7 and 2-4-6 (the VTB then sits in a mid-fork block), VBK keystone interval 2, VTB endorsing block 4 carried by either block of the candidate chain, either delivery order', 'timeout': 250}], 'thorough': [{'bound': 'as quick', 'timeout': 600}]}},
     {'name': 'h_realsp_refs', 'src': 'real/h_realsp.cpp', 'entry': 'h_realsp', 'repo_srcs': srcsets_real.REAL, 'defines': ['REFS'], 'covers': [1, 2], 'jobs': 2,
